@@ -9,7 +9,7 @@ from .. import schemacmp as S
 from .. import simplerun as Q
 
 LEVEL = "proof"
-GROUPS = {"quick": 1500, "thorough": 60000}
+GROUPS = {"quick": 3000, "thorough": 60000}
 FLOATS = {"quick": 20000, "thorough": 400000}
 
 INT_KINDS = ["int", "int8", "int16", "int32", "int64", "uint", "uint8", "uint16", "uint32", "uint64"]
